@@ -614,4 +614,540 @@ theorem sorting_facts {env : Env} {f : Vec → List Rat} {prec m : Nat} {ds : Li
   rw [hfront i hi, hfront j hj] at this
   exact Option.some.inj this
 
+/-! ## The run: recorded generations -/
+
+/-- Generation `t` of a record: the members tagged `t`, in recording order. -/
+def gen (t : Nat) (rec : List Member) : List Member := rec.filter (fun m => m.tag == t)
+
+theorem gen_append (t : Nat) (a b : List Member) : gen t (a ++ b) = gen t a ++ gen t b := by
+  simp [gen]
+
+theorem gen_eq_self {t : Nat} {l : List Member} (h : ∀ m ∈ l, m.tag = t) : gen t l = l := by
+  unfold gen
+  rw [List.filter_eq_self]
+  intro m hm; simp [h m hm]
+
+theorem gen_eq_nil {t : Nat} {l : List Member} (h : ∀ m ∈ l, m.tag ≠ t) : gen t l = [] := by
+  unfold gen
+  rw [List.filter_eq_nil_iff]
+  intro m hm; simp [h m hm]
+
+/-- Bookkeeping after `k` iterations: tags `1..k+1`, and the working population is the last
+recorded generation. -/
+structure Book (k : Nat) (s : RunState) : Prop where
+  tags : ∀ m ∈ s.recorded, 1 ≤ m.tag ∧ m.tag ≤ k + 1
+  cur : gen (k + 1) s.recorded = s.parents
+
+theorem step_book {cfg : Cfg} {k : Nat} {o : StepOracle} {s s' : RunState}
+    (h : nsga2Step cfg k o s = some s') (B : Book k s) :
+    Book (k + 1) s' ∧ ∀ t, t ≤ k + 1 → gen t s'.recorded = gen t s.recorded := by
+  obtain ⟨offs, fc, r, F⟩ := nsga2Step_some h
+  obtain ⟨_, htag, _⟩ := step_survivors F
+  refine ⟨⟨?_, ?_⟩, ?_⟩
+  · intro m hm
+    rw [F.hrec, List.mem_append] at hm
+    rcases hm with hm | hm
+    · have := B.tags m hm; omega
+    · have := htag m hm; omega
+  · rw [F.hrec, gen_append, gen_eq_self htag, gen_eq_nil, List.nil_append]
+    intro m hm; have := B.tags m hm; omega
+  · intro t ht
+    rw [F.hrec, gen_append, gen_eq_nil (l := s'.parents), List.append_nil]
+    intro m hm; have := htag m hm; omega
+
+theorem nsga2Loop_induct {cfg : Cfg} (P : Nat → RunState → Prop)
+    (hstep : ∀ it o s s', P it s → nsga2Step cfg it o s = some s' → P (it + 1) s') :
+    ∀ (n a : Nat) (os : List StepOracle) (s s' : RunState),
+      nsga2Loop cfg (List.range' a n) os s = some s' → P a s → P (a + n) s' := by
+  intro n
+  induction n with
+  | zero =>
+    intro a os s s' h hp
+    simp only [List.range'_zero, nsga2Loop, Option.some.injEq] at h
+    subst h; simpa using hp
+  | succ n ih =>
+    intro a os s s' h hp
+    rw [List.range'_succ] at h
+    cases os with
+    | nil => simp [nsga2Loop] at h
+    | cons o os =>
+      simp only [nsga2Loop] at h
+      cases hs : nsga2Step cfg a o s with
+      | none => simp [hs] at h
+      | some s1 =>
+        simp only [hs] at h
+        have := ih (a + 1) os s1 s' h (hstep a o s s1 hp hs)
+        have e : a + (n + 1) = a + 1 + n := by omega
+        rw [e]; exact this
+
+/-- Master induction over the generation loop.  `I k s` is an invariant of the state after `k`
+iterations, `R t g` a property of generation `t`, `Q t g g'` a property of the consecutive
+generations `t`, `t + 1`; if every iteration establishes them for its own parents and survivors,
+they hold of *all recorded* generations at the end. -/
+theorem loop_history {cfg : Cfg} (I : Nat → RunState → Prop) (R : Nat → List Member → Prop)
+    (Q : Nat → List Member → List Member → Prop)
+    (hs : ∀ it o s s', I it s → R (it + 1) s.parents → nsga2Step cfg it o s = some s' →
+      I (it + 1) s' ∧ R (it + 2) s'.parents ∧ Q (it + 1) s.parents s'.parents)
+    (n : Nat) (os : List StepOracle) (s0 s : RunState) (B0 : Book 0 s0)
+    (h : nsga2Loop cfg (List.range n) os s0 = some s) (hI : I 0 s0) (hR : R 1 s0.parents) :
+    Book n s ∧ I n s ∧ (∀ t, 1 ≤ t → t ≤ n + 1 → R t (gen t s.recorded)) ∧
+      (∀ t, 1 ≤ t → t ≤ n → Q t (gen t s.recorded) (gen (t + 1) s.recorded)) := by
+  rw [List.range_eq_range'] at h
+  have := nsga2Loop_induct (cfg := cfg)
+    (fun k s => Book k s ∧ I k s ∧ (∀ t, 1 ≤ t → t ≤ k + 1 → R t (gen t s.recorded)) ∧
+      (∀ t, 1 ≤ t → t ≤ k → Q t (gen t s.recorded) (gen (t + 1) s.recorded)))
+    (by
+      rintro it o s s' ⟨B, hi, hr, hq⟩ hstep
+      obtain ⟨B', frame⟩ := step_book hstep B
+      have hcur : R (it + 1) s.parents := by rw [← B.cur]; exact hr (it + 1) (by omega) (by omega)
+      obtain ⟨hi', hr', hq'⟩ := hs it o s s' hi hcur hstep
+      refine ⟨B', hi', ?_, ?_⟩
+      · intro t h1 h2
+        by_cases e : t = it + 2
+        · subst e; rw [B'.cur]; exact hr'
+        · rw [frame t (by omega)]; exact hr t h1 (by omega)
+      · intro t h1 h2
+        by_cases e : t = it + 1
+        · subst e
+          rw [frame (it + 1) (by omega), B.cur, B'.cur]; exact hq'
+        · rw [frame t (by omega), frame (t + 1) (by omega)]; exact hq t h1 (by omega))
+    n 0 os s0 s h ⟨B0, hI, by
+      intro t h1 h2
+      have : t = 1 := by omega
+      subst this; rw [B0.cur]; exact hR, by intro t h1 h2; omega⟩
+  simpa using this
+
+/-! ## The initial population and the run as a whole -/
+
+structure InitFacts (cfg : Cfg) (init : List Vec) (s0 : RunState) : Prop where
+  heval : (evalSerial cfg.env (freshFrom 0 cfg.prec init) { log := [], failed := [] }).1 = none
+  hworld : s0.world = (evalSerial cfg.env (freshFrom 0 cfg.prec init) { log := [], failed := [] }).2.2
+  hrec : s0.recorded = s0.parents
+  htag : ∀ m ∈ s0.parents, m.tag = 1
+  hlen : s0.parents.length = init.length
+  hds : ∀ m ∈ s0.parents,
+    m.d ∈ (evalSerial cfg.env (freshFrom 0 cfg.prec init) { log := [], failed := [] }).2.1
+
+theorem nsga2Init_some {cfg : Cfg} {init : List Vec} {s0 : RunState} (h : nsga2Init cfg init = some s0) :
+    InitFacts cfg init s0 := by
+  unfold nsga2Init at h
+  cases he : (evalSerial cfg.env (freshFrom 0 cfg.prec init) { log := [], failed := [] }).1 with
+  | some e => simp [he] at h
+  | none =>
+    simp only [he] at h
+    cases hs : sortCrowd (evalSerial cfg.env (freshFrom 0 cfg.prec init) { log := [], failed := [] }).2.1 with
+    | none => simp [hs] at h
+    | some fc =>
+      simp only [hs] at h
+      cases hv : allSome ((List.range (evalSerial cfg.env (freshFrom 0 cfg.prec init) { log := [], failed := [] }).2.1.length).map
+          (member? (evalSerial cfg.env (freshFrom 0 cfg.prec init) { log := [], failed := [] }).2.1 fc 1)) with
+      | none => simp [hv] at h
+      | some ms =>
+        simp only [hv, Option.some.injEq] at h
+        subst h
+        obtain ⟨hl, hg⟩ := allSome_map_range hv
+        have hcount := evalSerial_count cfg.env (freshFrom 0 cfg.prec init) { log := [], failed := [] }
+          (fun d hd => (freshFrom_props _ _ _ d hd).1) he
+        refine ⟨he, rfl, rfl, ?_, ?_, ?_⟩
+        · intro m hm
+          obtain ⟨k, hk, rfl⟩ := List.mem_iff_getElem.1 hm
+          obtain ⟨_, _, e⟩ := member?_some (hg k hk)
+          rw [e]
+        · show ms.length = init.length
+          rw [hl, hcount.1, freshFrom_length]
+        · intro m hm
+          obtain ⟨k, hk, rfl⟩ := List.mem_iff_getElem.1 hm
+          obtain ⟨hd, _, e⟩ := member?_some (hg k hk)
+          rw [e]; exact List.getElem_mem hd
+
+theorem init_book {cfg : Cfg} {init : List Vec} {s0 : RunState} (F : InitFacts cfg init s0) : Book 0 s0 :=
+  ⟨fun m hm => by rw [F.hrec] at hm; have := F.htag m hm; omega,
+   by rw [F.hrec]; exact gen_eq_self F.htag⟩
+
+theorem init_count {cfg : Cfg} {init : List Vec} {s0 : RunState} (F : InitFacts cfg init s0) :
+    s0.world.log.length = s0.world.failed.length + init.length := by
+  have := evalSerial_count cfg.env (freshFrom 0 cfg.prec init) { log := [], failed := [] }
+    (fun d hd => (freshFrom_props _ _ _ d hd).1) F.heval
+  rw [F.hworld]
+  simpa [freshFrom_length] using this.2
+
+theorem init_good {cfg : Cfg} {init : List Vec} {s0 : RunState} {f : Vec → List Rat}
+    (F : InitFacts cfg init s0) (hp : Pure cfg.env f) : ∀ p ∈ s0.parents, Good cfg.env f cfg.prec p.d :=
+  fun p hpm => evalSerial_good hp cfg.prec _ _ (freshFrom_props _ _ _) F.heval _ (F.hds p hpm)
+
+theorem nsga2Run_some {cfg : Cfg} {G : Nat} {init : List Vec} {steps : List StepOracle} {r : RunResult}
+    (h : nsga2Run cfg G init steps = some r) :
+    ∃ s0 s, nsga2Init cfg init = some s0 ∧ nsga2Loop cfg (List.range (G - 1)) steps s0 = some s ∧
+      r.recorded = s.recorded ∧ r.evals = okCalls s.world ∧ r.world = s.world ∧ r.final = s.parents := by
+  unfold nsga2Run at h
+  cases h0 : nsga2Init cfg init with
+  | none => simp [h0] at h
+  | some s0 =>
+    simp only [h0] at h
+    cases hl : nsga2Loop cfg (List.range (G - 1)) steps s0 with
+    | none => simp [hl] at h
+    | some s =>
+      simp only [hl, Option.some.injEq] at h
+      subst h
+      exact ⟨s0, s, rfl, hl, rfl, rfl, rfl, rfl⟩
+
+/-! ## Single objective -/
+
+theorem signed_single {env : Env} {f : Vec → List Rat} {prec : Nat} {d : Design} (g : Good env f prec d)
+    (hone : ∀ v, (f v).length = 1) (hsg : env.signs ≠ []) : ∃ c, d.signed = [c] := by
+  rw [g.signed]
+  unfold signedCosts
+  have h1 := hone d.vec
+  cases hf : f d.vec with
+  | nil => rw [hf] at h1; simp at h1
+  | cons c cs =>
+    rw [hf] at h1
+    have : cs = [] := by
+      cases cs with
+      | nil => rfl
+      | cons _ _ => simp at h1
+    subst this
+    cases hs : env.signs with
+    | nil => exact absurd hs hsg
+    | cons s ss => exact ⟨s * env.rnd prec c, by simp⟩
+
+theorem markerFn_unconstrained {env : Env} (hcons : ∀ v, env.cons v = []) (v : Vec) : markerFn env v = 1 := by
+  simp [markerFn, hcons, feasAfter, markerOf, Feas.truthy]
+
+theorem pareto_single (cy cx : Rat) (h : cy < cx) : paretoCompare [cy] [cx] 1 1 = 1 := by
+  have h2 : ¬ cx < cy := by
+    intro h3; exact absurd (lt_trans h h3) (lt_irrefl _)
+  simp [paretoCompare, markerVerdict, scan, h, h2]
+
+/-! ## ε-MOEA -/
+
+/-- The acceptance step keeps the size of a non-empty population (`popAccept_size`, C09). -/
+def PopSize (eqm : Member → Member → Bool) : Prop :=
+  ∀ pop flags x p1 p2, 0 < pop.length → (Runs.popAccept eqm pop flags x p1 p2).length = pop.length
+
+theorem acceptAll_spec {cfg : Cfg} {eps : List Rat} {tag : Nat}
+    (hps : PopSize (fun a b => cfg.eq a.d.vec b.d.vec)) :
+    ∀ (ds : List Design) (pks : List (Nat × Nat)) (s s' : EpsState),
+      acceptAll cfg eps tag ds pks s = some s' → 0 < s.pop.length →
+      s'.recorded = s.recorded ++ ds.map (fun d => ({ d := d, front := 0, crowd := some 0, tag := tag } : Member)) ∧
+      s'.pop.length = s.pop.length ∧ s'.world = s.world := by
+  intro ds
+  induction ds with
+  | nil =>
+    intro pks s s' h _
+    simp only [acceptAll, Option.some.injEq] at h
+    subst h; simp
+  | cons d ds ih =>
+    intro pks s s' h hpos
+    cases pks with
+    | nil => simp [acceptAll] at h
+    | cons pk pks =>
+      simp only [acceptAll] at h
+      cases hf : flagsOf { d := d, front := 0, crowd := some 0, tag := tag } s.pop with
+      | none => simp [hf] at h
+      | some flags =>
+        simp only [hf] at h
+        cases ha : Archive.add (archCmp eps) archSame s.archive { d := d, front := 0, crowd := some 0, tag := tag } with
+        | none => simp [ha] at h
+        | some a =>
+          simp only [ha] at h
+          have hsz := hps s.pop flags { d := d, front := 0, crowd := some 0, tag := tag } pk.1 pk.2 hpos
+          obtain ⟨h1, h2, h3⟩ := ih pks _ s' h (by simp only; omega)
+          refine ⟨?_, ?_, ?_⟩
+          · rw [h1]; simp
+          · rw [h2]; exact hsz
+          · rw [h3]
+
+structure EpsStepFacts (cfg : Cfg) (it : Nat) (s s' : EpsState) (offs : List Vec) : Prop where
+  hlen : offs.length = cfg.N
+  hrec : ∃ new : List Member, new.length = offs.length ∧ (∀ m ∈ new, m.tag = it + 1) ∧
+    s'.recorded = s.recorded ++ new
+  hpop : s'.pop.length = s.pop.length
+  hcount : s'.world.log.length + s.world.failed.length =
+    s.world.log.length + s'.world.failed.length + offs.length
+
+theorem epsStep_some {cfg : Cfg} {eps : List Rat} {it : Nat} {o : EpsOracle} {s s' : EpsState}
+    (hps : PopSize (fun a b => cfg.eq a.d.vec b.d.vec))
+    (hgen : ∀ ps offs, Runs.generate cfg.eq cfg.N ps [] = some offs → offs.length = cfg.N)
+    (hpos : 0 < s.pop.length) (h : epsStep cfg eps it o s = some s') :
+    ∃ offs, EpsStepFacts cfg it s s' offs := by
+  unfold epsStep at h
+  cases hg : Runs.generate cfg.eq cfg.N o.children [] with
+  | none => simp [hg] at h
+  | some offs =>
+    simp only [hg] at h
+    cases he : (evalSerial cfg.env (freshFrom s.nextKey cfg.prec offs) s.world).1 with
+    | some e => simp [he] at h
+    | none =>
+      simp only [he] at h
+      have hc := evalSerial_count cfg.env (freshFrom s.nextKey cfg.prec offs) s.world
+        (fun d hd => (freshFrom_props _ _ _ d hd).1) he
+      obtain ⟨h1, h2, h3⟩ := acceptAll_spec hps _ _ _ s' h (by simpa using hpos)
+      refine ⟨offs, hgen _ _ hg, ⟨_, ?_, ?_, h1⟩, by simpa using h2, ?_⟩
+      · simp [hc.1, freshFrom_length]
+      · intro m hm
+        obtain ⟨d, _, rfl⟩ := List.mem_map.1 hm
+        rfl
+      · rw [h3]
+        simpa [freshFrom_length] using hc.2
+
+theorem epsLoop_induct {cfg : Cfg} {eps : List Rat} (P : Nat → EpsState → Prop)
+    (hstep : ∀ it o s s', P it s → epsStep cfg eps it o s = some s' → P (it + 1) s') :
+    ∀ (n a : Nat) (os : List EpsOracle) (s s' : EpsState),
+      epsLoop cfg eps (List.range' a n) os s = some s' → P a s → P (a + n) s' := by
+  intro n
+  induction n with
+  | zero =>
+    intro a os s s' h hp
+    simp only [List.range'_zero, epsLoop, Option.some.injEq] at h
+    subst h; simpa using hp
+  | succ n ih =>
+    intro a os s s' h hp
+    rw [List.range'_succ] at h
+    cases os with
+    | nil => simp [epsLoop] at h
+    | cons o os =>
+      simp only [epsLoop] at h
+      cases hs : epsStep cfg eps a o s with
+      | none => simp [hs] at h
+      | some s1 =>
+        simp only [hs] at h
+        have := ih (a + 1) os s1 s' h (hstep a o s s1 hp hs)
+        have e : a + (n + 1) = a + 1 + n := by omega
+        rw [e]; exact this
+
+/-- Bookkeeping of the ε-MOEA run after `k` iterations. -/
+structure EpsInv (N k : Nat) (s : EpsState) : Prop where
+  tags : ∀ m ∈ s.recorded, m.tag ≤ k
+  sizes : ∀ t, t ≤ k → (gen t s.recorded).length = N
+  pop : s.pop.length = N
+  count : s.world.log.length = s.world.failed.length + N * (k + 1)
+
+theorem epsInit_inv {cfg : Cfg} {eps : List Rat} {init : List Vec} {s0 : EpsState}
+    (h : epsInit cfg eps init = some s0) : EpsInv init.length 0 s0 := by
+  unfold epsInit at h
+  cases he : (evalSerial cfg.env (freshFrom 0 cfg.prec init) { log := [], failed := [] }).1 with
+  | some e => simp [he] at h
+  | none =>
+    simp only [he] at h
+    cases ha : archiveAll eps ((evalSerial cfg.env (freshFrom 0 cfg.prec init) { log := [], failed := [] }).2.1.map
+        (fun d => ({ d := d, front := 0, crowd := some 0, tag := 0 } : Member))) [] with
+    | none => simp [ha] at h
+    | some a =>
+      simp only [ha, Option.some.injEq] at h
+      subst h
+      have hc := evalSerial_count cfg.env (freshFrom 0 cfg.prec init) { log := [], failed := [] }
+        (fun d hd => (freshFrom_props _ _ _ d hd).1) he
+      have htag : ∀ m ∈ (evalSerial cfg.env (freshFrom 0 cfg.prec init) { log := [], failed := [] }).2.1.map
+          (fun d => ({ d := d, front := 0, crowd := some 0, tag := 0 } : Member)), m.tag = 0 := by
+        intro m hm
+        obtain ⟨d, _, rfl⟩ := List.mem_map.1 hm
+        rfl
+      refine ⟨fun m hm => by have := htag m hm; omega, ?_, ?_, ?_⟩
+      · intro t ht
+        have : t = 0 := by omega
+        subst this
+        rw [gen_eq_self htag]
+        simp [hc.1, freshFrom_length]
+      · simp [hc.1, freshFrom_length]
+      · have := hc.2
+        simp only [List.length_nil, freshFrom_length] at this
+        simp only
+        omega
+
+theorem epsStep_inv {cfg : Cfg} {eps : List Rat} {k : Nat} {o : EpsOracle} {s s' : EpsState}
+    (hps : PopSize (fun a b => cfg.eq a.d.vec b.d.vec))
+    (hgen : ∀ ps offs, Runs.generate cfg.eq cfg.N ps [] = some offs → offs.length = cfg.N)
+    (hN : 0 < cfg.N) (I : EpsInv cfg.N k s) (h : epsStep cfg eps k o s = some s') :
+    EpsInv cfg.N (k + 1) s' := by
+  obtain ⟨offs, F⟩ := epsStep_some hps hgen (by rw [I.pop]; exact hN) h
+  obtain ⟨new, hnl, hnt, hrec⟩ := F.hrec
+  refine ⟨?_, ?_, by rw [F.hpop, I.pop], ?_⟩
+  · intro m hm
+    rw [hrec, List.mem_append] at hm
+    rcases hm with hm | hm
+    · have := I.tags m hm; omega
+    · have := hnt m hm; omega
+  · intro t ht
+    rw [hrec, gen_append]
+    by_cases e : t = k + 1
+    · subst e
+      rw [gen_eq_nil (l := s.recorded), gen_eq_self hnt]
+      · simp [hnl, F.hlen]
+      · intro m hm; have := I.tags m hm; omega
+    · rw [gen_eq_nil (l := new), List.append_nil]
+      · exact I.sizes t (by omega)
+      · intro m hm; have := hnt m hm; omega
+  · have := F.hcount
+    have hc := I.count
+    rw [F.hlen] at this
+    rw [Nat.mul_succ]
+    omega
+
+theorem epsMoeaRun_some {cfg : Cfg} {eps : List Rat} {G : Nat} {init : List Vec} {steps : List EpsOracle}
+    {r : EpsResult} (h : epsMoeaRun cfg eps G init steps = some r) :
+    ∃ s0 s, epsInit cfg eps init = some s0 ∧ epsLoop cfg eps (List.range G) steps s0 = some s ∧
+      r.recorded = s.recorded ∧ r.evals = okCalls s.world ∧ r.world = s.world ∧ r.pop = s.pop := by
+  unfold epsMoeaRun at h
+  cases h0 : epsInit cfg eps init with
+  | none => simp [h0] at h
+  | some s0 =>
+    simp only [h0] at h
+    cases hl : epsLoop cfg eps (List.range G) steps s0 with
+    | none => simp [hl] at h
+    | some s =>
+      simp only [hl, Option.some.injEq] at h
+      subst h
+      exact ⟨s0, s, rfl, hl, rfl, rfl, rfl, rfl⟩
+
+/-! ## Non-vacuity support: runs whose `set()` oracle happens to be sorted already
+
+`List.mergeSort` does not reduce in the kernel.  For the concrete instances in `Props/C09.lean`
+the oracle lists the de-duplicated population in sorted order; then the truncation returns the
+first `k` oracle positions (`truncS`, kernel-computable), and a run computed with `truncS` is a
+run of the model (`runS_sound`). -/
+
+def sortedB : List (Nat × Ind) → Bool
+  | [] => true
+  | a :: l => l.all (fun b => ndLe a b) && sortedB l
+
+def truncS (pop : List Ind) (k : Nat) (o : List Nat) : Option (List Nat) :=
+  match pick pop o with
+  | none => none
+  | some picked => if isDedup pop picked && sortedB picked then some (o.take k) else none
+
+theorem sortedB_pairwise : ∀ {l : List (Nat × Ind)}, sortedB l = true → l.Pairwise (fun a b => ndLe a b = true)
+  | [], _ => List.Pairwise.nil
+  | a :: l, h => by
+    simp only [sortedB, Bool.and_eq_true, List.all_eq_true] at h
+    exact List.Pairwise.cons h.1 (sortedB_pairwise h.2)
+
+theorem truncS_sound {pop : List Ind} {k : Nat} {o r : List Nat} (h : truncS pop k o = some r) :
+    truncate pop k o = some r := by
+  unfold truncS at h
+  unfold truncate
+  cases hp : pick pop o with
+  | none => simp [hp] at h
+  | some picked =>
+    simp only [hp] at h ⊢
+    by_cases hc : (isDedup pop picked && sortedB picked) = true
+    · simp only [hc, if_true, Option.some.injEq] at h
+      simp only [Bool.and_eq_true] at hc
+      simp only [hc.1, if_true, Option.some.injEq]
+      rw [List.mergeSort_of_pairwise (sortedB_pairwise hc.2), ← h, ← (pick_spec hp).1, List.map_take]
+    · simp [hc] at h
+
+def stepS (cfg : Cfg) (it : Nat) (o : StepOracle) (s : RunState) : Option RunState :=
+  match Runs.generate cfg.eq cfg.N o.children [] with
+  | none => none
+  | some offs =>
+    let res := evalSerial cfg.env (freshFrom s.nextKey cfg.prec offs) s.world
+    match res.1 with
+    | some _ => none
+    | none =>
+      let merged := res.2.1 ++ copiesFrom (s.nextKey + offs.length) cfg.prec s.parents
+      match sortCrowd merged with
+      | none => none
+      | some fc =>
+        match truncS (mkInds merged fc) cfg.N o.setOrder with
+        | none => none
+        | some r =>
+          match allSome (r.map (member? merged fc (it + 2))) with
+          | none => none
+          | some surv =>
+            some { parents := surv, nextKey := s.nextKey + offs.length + s.parents.length,
+                   world := res.2.2, recorded := s.recorded ++ surv }
+
+theorem stepS_sound {cfg : Cfg} {it : Nat} {o : StepOracle} {s s' : RunState}
+    (h : stepS cfg it o s = some s') : nsga2Step cfg it o s = some s' := by
+  unfold stepS at h
+  unfold nsga2Step
+  cases hg : Runs.generate cfg.eq cfg.N o.children [] with
+  | none => simp [hg] at h
+  | some offs =>
+    simp only [hg] at h ⊢
+    cases he : (evalSerial cfg.env (freshFrom s.nextKey cfg.prec offs) s.world).1 with
+    | some e => simp [he] at h
+    | none =>
+      simp only [he] at h ⊢
+      cases hs : sortCrowd ((evalSerial cfg.env (freshFrom s.nextKey cfg.prec offs) s.world).2.1 ++
+          copiesFrom (s.nextKey + offs.length) cfg.prec s.parents) with
+      | none => simp [hs] at h
+      | some fc =>
+        simp only [hs] at h ⊢
+        cases ht : truncS (mkInds ((evalSerial cfg.env (freshFrom s.nextKey cfg.prec offs) s.world).2.1 ++
+            copiesFrom (s.nextKey + offs.length) cfg.prec s.parents) fc) cfg.N o.setOrder with
+        | none => simp [ht] at h
+        | some r =>
+          simp only [ht] at h
+          simp only [truncS_sound ht]
+          exact h
+
+def loopS (cfg : Cfg) : List Nat → List StepOracle → RunState → Option RunState
+  | [], _, s => some s
+  | _ :: _, [], _ => none
+  | it :: its, o :: os, s =>
+    match stepS cfg it o s with
+    | none => none
+    | some s' => loopS cfg its os s'
+
+theorem loopS_sound {cfg : Cfg} : ∀ (its : List Nat) (os : List StepOracle) (s s' : RunState),
+    loopS cfg its os s = some s' → nsga2Loop cfg its os s = some s' := by
+  intro its
+  induction its with
+  | nil => intro os s s' h; simpa [loopS, nsga2Loop] using h
+  | cons it its ih =>
+    intro os s s' h
+    cases os with
+    | nil => simp [loopS] at h
+    | cons o os =>
+      simp only [loopS] at h
+      cases hs : stepS cfg it o s with
+      | none => simp [hs] at h
+      | some s1 =>
+        simp only [hs] at h
+        simp only [nsga2Loop, stepS_sound hs]
+        exact ih os s1 s' h
+
+def runS (cfg : Cfg) (G : Nat) (init : List Vec) (steps : List StepOracle) : Option RunResult :=
+  match nsga2Init cfg init with
+  | none => none
+  | some s0 =>
+    match loopS cfg (List.range (G - 1)) steps s0 with
+    | none => none
+    | some s => some { recorded := s.recorded, evals := okCalls s.world, world := s.world, final := s.parents }
+
+theorem runS_sound {cfg : Cfg} {G : Nat} {init : List Vec} {steps : List StepOracle}
+    (h : (runS cfg G init steps).isSome = true) : ∃ r, nsga2Run cfg G init steps = some r := by
+  unfold runS at h
+  unfold nsga2Run
+  cases h0 : nsga2Init cfg init with
+  | none => simp [h0] at h
+  | some s0 =>
+    simp only [h0] at h ⊢
+    cases hl : loopS cfg (List.range (G - 1)) steps s0 with
+    | none => simp [hl] at h
+    | some s => exact ⟨_, by simp only [loopS_sound _ _ _ _ hl]; rfl⟩
+
+theorem runS_sound_P {cfg : Cfg} {G : Nat} {init : List Vec} {steps : List StepOracle} (P : RunResult → Bool)
+    (h : (runS cfg G init steps).map P = some true) : ∃ r, nsga2Run cfg G init steps = some r ∧ P r = true := by
+  cases hr : runS cfg G init steps with
+  | none => simp [hr] at h
+  | some r =>
+    rw [hr] at h
+    simp only [Option.map_some, Option.some.injEq] at h
+    refine ⟨r, ?_, h⟩
+    unfold runS at hr
+    unfold nsga2Run
+    cases h0 : nsga2Init cfg init with
+    | none => simp [h0] at hr
+    | some s0 =>
+      simp only [h0] at hr ⊢
+      cases hl : loopS cfg (List.range (G - 1)) steps s0 with
+      | none => simp [hl] at hr
+      | some s =>
+        simp only [hl] at hr
+        simp only [loopS_sound _ _ _ _ hl]
+        exact hr
+
 end Artap.Nsga2
